@@ -199,6 +199,7 @@ package runtime
 //@ watch FL = invoke (runtime.CSVWriter).Flush
 //@ watch ER = invoke (runtime.CSVWriter).Error
 //@ requires csvWriter != nil && csvReader != nil
+//@ assigns \opaque
 //@ ensures [C16:reads] forall n int :: called(RD,n) ==> 0 <= n && n < calls(RD) && recv(RD,n) == csvReader
 //@ ensures [C16:skipped] forall n int :: 0 <= n && n < csvSkip(opts) && n < calls(RD) - 1 ==> ret(RD,n,1) == nil
 //@ ensures [C16:records] forall n int :: called(WR,n) ==> 0 <= n && n < calls(WR) && recv(WR,n) == csvWriter && arg(WR,n,0) == ret(RD,n+csvSkip(opts),0) && ret(RD,n+csvSkip(opts),1) == nil && called(RD,n+csvSkip(opts))
@@ -220,6 +221,7 @@ package runtime
 //@ watch IS = call errors.Is
 //@ watch RA = call (*encoding/csv.Reader).ReadAll
 //@ watch WA = call (*encoding/csv.Writer).WriteAll
+//@ assigns \opaque
 //@ ensures [C16:skipreads] forall n int :: called(RD,n) ==> 0 <= n && n < calls(RD) && arg(RD,n,0) == csvReader
 //@ ensures [C16:skipped] calls(RD) <= csvSkip(opts) && (forall n int :: 0 <= n && n < calls(RD) - 1 ==> ret(RD,n,1) == nil)
 //@ ensures [C16:all] calls(RA) == 1 ==> calls(RD) == csvSkip(opts) && (forall n int :: 0 <= n && n < calls(RD) ==> ret(RD,n,1) == nil) && arg(RA,0,0) == csvReader
@@ -239,7 +241,7 @@ package runtime
 //@ ensures [C16:content] len(w.records[len(w.records)-1]) == len(record) && forall k int :: 0 <= k && k < len(record) ==> w.records[len(w.records)-1][k] == old(record[k])
 
 //@ func (*csvRecordsWriter).Read
-//@ requires w != nil
+//@ requires w != nil && w.i >= 0 && w.i < 4611686018427387904
 //@ ensures [C16:eof] old(w.i) >= len(old(w.records)) || old(w.i) < 0 ==> result1 == io.EOF || old(w.i) < 0
 //@ ensures [C16:next] 0 <= old(w.i) && old(w.i) < len(old(w.records)) ==> result1 == nil && result0 == old(w.records[w.i]) && w.i == old(w.i) + 1
 
@@ -256,3 +258,68 @@ package runtime
 //@ func (csvOpts).applyToWriter
 //@ requires in != nil
 //@ ensures [C16:writeropts] in.Comma == (o.csvWriter.Comma != 0 ? o.csvWriter.Comma : old(in.Comma)) && in.UseCRLF == o.csvWriter.UseCRLF
+
+//@ func (*csvRecordsWriter).Read$1
+//@ requires w != nil && w.i < 4611686018427387904
+//@ ensures w.i == old(w.i) + 1 && w.records == old(w.records)
+//@ assigns w.i
+
+//@ func CSVConsumer$1$1
+//@ watch K = dyn free:closer
+//@ requires closer != nil
+//@ ensures calls(K) == 1
+
+//@ func CSVProducer$1$1
+//@ watch K = dyn free:closer
+//@ requires closer != nil
+//@ ensures calls(K) == 1
+
+// CSVConsumer: every destination kind is fed through pipeCSV (streaming) or bufferedCSV
+// with the same options; errors are returned; the stream is closed exactly when asked.
+//@ func CSVConsumer$1
+//@ watch NR = call encoding/csv.NewReader
+//@ watch AR = call (csvOpts).applyToReader
+//@ watch AW = call (csvOpts).applyToWriter
+//@ watch BM = closure (io.Closer).Close$bound
+//@ watch DC = closure CSVConsumer$1$1
+//@ watch DF = call CSVConsumer$1$1
+//@ watch PC = call pipeCSV
+//@ watch BC = call bufferedCSV
+//@ watch RM = invoke (io.ReaderFrom).ReadFrom
+//@ watch UB = invoke (encoding.BinaryUnmarshaler).UnmarshalBinary
+//@ ensures [C16:nilreader] reader == nil ==> result != nil && calls(NR) == 0 && calls(PC) == 0 && calls(BC) == 0
+//@ ensures [C16:nildata] reader != nil && data == nil ==> result != nil && calls(NR) == 0 && calls(PC) == 0 && calls(BC) == 0
+//@ ensures [C16:reader] reader != nil && data != nil ==> calls(NR) == 1 && arg(NR,0,0) == reader && calls(AR) >= 1 && arg(AR,0,1) == ret(NR,0,0)
+//@ ensures [C16:closeopt] reader != nil && data != nil ==> (calls(BM) == 1 <==> o.closeStream && implements(reader, "io.Closer")) && (calls(BM) == 1 ==> arg(BM,0,0) == reader) && calls(DC) == 1 && calls(DF) == 1 && captured(DC,0,"closer") == (calls(BM) == 1 ? ret(BM,0,0) : defaultCloser)
+//@ ensures [C16:once] calls(PC) + calls(BC) <= 1
+//@ ensures [C16:pipe] calls(PC) == 1 ==> arg(PC,0,1) == boxof(ret(NR,0,0)) && arg(PC,0,2).skippedLines == o.skippedLines
+//@ ensures [C16:buffered] calls(BC) == 1 ==> arg(BC,0,1) == ret(NR,0,0) && arg(BC,0,2).skippedLines == o.skippedLines
+//@ ensures [C16:error] (calls(PC) == 1 && ret(PC,0,0) != nil ==> result == ret(PC,0,0)) && (calls(BC) == 1 && ret(BC,0,0) != nil ==> result == ret(BC,0,0) && calls(RM) == 0 && calls(UB) == 0)
+//@ ensures [C16:nilcsvwriter] reader != nil && typeis(data, "*encoding/csv.Writer") && !nonnilptr(data) ==> result != nil && calls(PC) == 0
+//@ ensures [C16:csvwriter] reader != nil && data != nil && typeis(data, "*encoding/csv.Writer") && nonnilptr(data) ==> calls(PC) == 1 && arg(PC,0,0) == data && result == ret(PC,0,0) && calls(AW) == 1 && arg(AW,0,1) == unboxptr(data, "*encoding/csv.Writer")
+//@ ensures [C16:custom] reader != nil && data != nil && !typeis(data, "*encoding/csv.Writer") && implements(data, "CSVWriter") ==> calls(PC) == 1 && arg(PC,0,0) == data && result == ret(PC,0,0) && calls(AW) == 0
+//@ ensures [C16:readerfrom] calls(RM) == 1 ==> calls(BC) == 1 && ret(BC,0,0) == nil && recv(RM,0) == data && result == ret(RM,0,1)
+//@ ensures [C16:unmarshal] calls(UB) == 1 ==> calls(BC) == 1 && ret(BC,0,0) == nil && recv(UB,0) == data && result == ret(UB,0,0)
+
+//@ func CSVProducer$1
+//@ watch NW = call encoding/csv.NewWriter
+//@ watch AR = call (csvOpts).applyToReader
+//@ watch AW = call (csvOpts).applyToWriter
+//@ watch BM = closure (io.Closer).Close$bound
+//@ watch DC = closure CSVProducer$1$1
+//@ watch DF = call CSVProducer$1$1
+//@ watch RC = invoke (io.Closer).Close
+//@ watch PC = call pipeCSV
+//@ watch BC = call bufferedCSV
+//@ watch MB = invoke (encoding.BinaryMarshaler).MarshalBinary
+//@ ensures [C16:nilwriter] writer == nil ==> result != nil && calls(NW) == 0 && calls(PC) == 0 && calls(BC) == 0
+//@ ensures [C16:nildata] writer != nil && data == nil ==> result != nil && calls(NW) == 0 && calls(PC) == 0 && calls(BC) == 0
+//@ ensures [C16:writer] writer != nil && data != nil ==> calls(NW) == 1 && arg(NW,0,0) == writer && calls(AW) == 1 && arg(AW,0,1) == ret(NW,0,0)
+//@ ensures [C16:closeopt] writer != nil && data != nil ==> (calls(BM) == 1 <==> o.closeStream && implements(writer, "io.Closer")) && (calls(BM) == 1 ==> arg(BM,0,0) == writer) && calls(DC) == 1 && calls(DF) == 1 && captured(DC,0,"closer") == (calls(BM) == 1 ? ret(BM,0,0) : defaultCloser)
+//@ ensures [C16:payloadclosed] writer != nil && data != nil ==> (calls(RC) == 1 <==> implements(data, "io.ReadCloser")) && (calls(RC) == 1 ==> recv(RC,0) == data)
+//@ ensures [C16:pipe] calls(PC) == 1 ==> arg(PC,0,0) == boxof(ret(NW,0,0)) && arg(PC,0,2).skippedLines == o.skippedLines && result == ret(PC,0,0)
+//@ ensures [C16:buffered] calls(BC) == 1 ==> arg(BC,0,0) == ret(NW,0,0) && arg(BC,0,2).skippedLines == o.skippedLines && result == ret(BC,0,0)
+//@ ensures [C16:nilcsvreader] writer != nil && typeis(data, "*encoding/csv.Reader") && !nonnilptr(data) ==> result != nil && calls(PC) == 0
+//@ ensures [C16:csvreader] writer != nil && data != nil && typeis(data, "*encoding/csv.Reader") && nonnilptr(data) ==> calls(PC) == 1 && arg(PC,0,1) == data && calls(AR) == 1 && arg(AR,0,1) == unboxptr(data, "*encoding/csv.Reader")
+//@ ensures [C16:custom] writer != nil && data != nil && !typeis(data, "*encoding/csv.Reader") && implements(data, "CSVReader") ==> calls(PC) == 1 && arg(PC,0,1) == data && calls(AR) == 0
+//@ ensures [C16:marshalerr] calls(MB) == 1 && ret(MB,0,1) != nil ==> result == ret(MB,0,1) && calls(BC) == 0 && calls(PC) == 0
